@@ -30,6 +30,18 @@ theorem waiter_returns_only_after_full_stop (g0 : G) (h0 : Initial g0) (sched : 
   simp only [okNow, snapshotOk, Bool.and_eq_true, beq_iff_eq, hasPostStop_run] at hok'
   exact ⟨h1, hok'.1, hok'.2⟩
 
+/-- (safety, state form) When a waiter has returned, the registry entry of the actor's name is not
+the actor's any more — `Sh.name` is a modelled state component with three writers
+(`status.unreg_name`, a successor registering the freed name, nobody giving it back) — whatever
+successors, late `drain()`s, panicking clean-up statements and late `set_status` calls race. -/
+theorem returned_waiter_name_released (g0 : G) (h0 : Initial g0) (sched : List Tid) :
+    ∀ w ∈ (run g0 sched).waiters, ∀ ok, w.pc = .returned ok → (run g0 sched).sh.name ≠ .self := by
+  intro w hw ok hok
+  have I := inv_run _ sched (inv_initial g0 h0)
+  have h12 := ((I.ws w hw).ret ok hok).2
+  exact name_gone_run g0 sched (inv_initial g0 h0)
+    (fun h3 => by rw [h0.exiter] at h3; simp [EPc.stage] at h3) (by omega)
+
 /-- What `ok` records: a waiter that returns in this step stores `okNow g`, the observation of the
 state it returns in. -/
 theorem return_records_current_state (sh : Sh) (fl : Bool) (w : Waiter) (ok : Bool)
@@ -157,13 +169,19 @@ results are discarded. All schedules. -/
 /-- (every wait form) A call that returned `Ok(())` — whichever form, with or without a timeout,
 started before, during or after the exit — recorded a fully stopped actor at the moment of its
 return (`snap = true`: the oracle `formOk`), and the actor is fully stopped in the current state as
-well: status `Stopped`, pid and name unregistered, group monitors and memberships gone, children
-terminated, supervisor notified, unlinked, `post_stop` returned on a graceful exit. -/
+well: status `Stopped`; every clean-up statement of the exit sequence has been executed
+(`flags.complete`: the calls that unregister the pid and the name, drop group monitors and
+memberships, terminate the children, notify the supervisor, unlink; `post_stop` returned on a
+graceful exit — program order, the observable effect of each call is C10 / C11 / C05's subject);
+and, in terms of modelled state rather than of executed statements: the registry entry of the name
+is no longer the actor's (`Sh.name`, whoever races for the freed name), and its one-shot stop and
+signal ports accept nothing any more (the port set went with the processing loop). -/
 theorem ok_means_fully_stopped (x0 : X) (h0 : XInitial x0) (sched : List XTid) :
     ∀ c ∈ (xrun x0 sched).callers, ∀ snap, c.pc = .done (.ok snap) →
       snap = true ∧ ∃ kid, (xrun x0 sched).kids[c.kid]? = some kid ∧
         kid.fullyStopped = true ∧ kid.g.sh.status = stStopped ∧
-        kid.g.sh.flags.complete kid.g.exiter.hasPostStop = true := by
+        kid.g.sh.flags.complete kid.g.exiter.hasPostStop = true ∧
+        kid.g.sh.name ≠ .self ∧ kid.stopOpen = false ∧ kid.signalOpen = false := by
   intro c hc snap hs
   have I := xinv_run _ sched (xinv_initial x0 h0)
   have hlt := I.has c hc (by rw [hs]; simp)
@@ -174,7 +192,10 @@ theorem ok_means_fully_stopped (x0 : X) (h0 : XInitial x0) (sched : List XTid) :
   have hf := fullyStopped_of_stage hi hok.2
   have hf' := hf
   simp only [Kid.fullyStopped, okNow, snapshotOk, Bool.and_eq_true, beq_iff_eq] at hf'
-  exact ⟨hok.1, kid, hk, hf, hf'.1, hf'.2⟩
+  have hname := xrun_name_gone x0 h0 sched kid (List.mem_of_getElem? hk) (by omega)
+  have hgone : kid.g.exiter.pc.loopGone = true := loopGone_of_stage (by omega)
+  exact ⟨hok.1, kid, hk, hf, hf'.1, hf'.2, hname, by simp [Kid.stopOpen, Kid.rxAlive, hgone],
+    by simp [Kid.signalOpen, Kid.rxAlive, hgone]⟩
 
 /-- The run-time oracle of the wait forms holds of every finished call of the model. -/
 theorem form_oracle_holds (x0 : X) (h0 : XInitial x0) (sched : List XTid) :
@@ -194,6 +215,25 @@ theorem send_error_means_not_accepted (x0 : X) (h0 : XInitial x0) (sched : List 
   have I := xinv_run _ sched (xinv_initial x0 h0)
   have hlt := I.has c hc (by rw [hs]; simp)
   exact (I.callers c hc _ (List.getElem?_eq_getElem hlt)).err hs
+
+/-- (the send step, exactly) `stop_and_wait` returns the send error — without waiting — iff a
+`stop()` issued now would not be accepted (the one-shot stop port was already used by somebody, or
+the port set is gone), and goes on to `wait()` otherwise; `kill_and_wait` ignores the send error and
+always waits; `drain_and_wait` fails iff the drain marker still has to be enqueued and the mailbox
+receiver is gone; `wait` and the join handle have no send step. -/
+theorem send_step_outcomes (kid : Kid) (c : Caller) :
+    (c.form = .stopWait → ((sendStep kid c).2.pc = .done .sendErr ↔ kid.stopOpen = false) ∧
+                          ((sendStep kid c).2.pc = .waiting ↔ kid.stopOpen = true)) ∧
+    (c.form = .killWait → (sendStep kid c).2.pc = .waiting) ∧
+    (c.form = .drainWait → ((sendStep kid c).2.pc = .done .sendErr ↔ (kid.ports.marker = false ∧ kid.rxAlive = false))) ∧
+    (c.form = .wait ∨ c.form = .join → (sendStep kid c).2.pc = .waiting) := by
+  refine ⟨fun hf => ?_, fun hf => ?_, fun hf => ?_, fun hf => ?_⟩
+  · simp only [sendStep, hf, Kid.stopOpen]
+    cases kid.ports.stop <;> cases kid.rxAlive <;> simp
+  · simp only [sendStep, hf]
+  · simp only [sendStep, hf]
+    cases kid.ports.marker <;> cases kid.rxAlive <;> simp
+  · rcases hf with hf | hf <;> simp only [sendStep, hf]
 
 /-- (children wrappers, what holds) When `stop_children_and_wait` / `drain_children_and_wait` has
 returned, every task of its `JoinSet` is done, and every child of the snapshot whose stop / drain
@@ -419,3 +459,5 @@ end C06
 #print axioms C06.wrapper_oracle_holds
 #print axioms C06.children_wrapper_may_return_with_running_child
 #print axioms C06.timeout_has_no_effect
+#print axioms C06.returned_waiter_name_released
+#print axioms C06.send_step_outcomes
